@@ -15,6 +15,7 @@ from vk import work, probe, known
 from vk.gen import jsgen
 from vk.ref import refjs
 from vk.tree import first_diff
+from vk import tree as vtree
 from vk.ddmin import minimise_text
 
 LEVEL = 'exploration'
@@ -29,7 +30,7 @@ ASSUMPTIONS = ['refjs (recursive-descent ES5.1 front end written from ECMA-262 5
                'early errors are not checked by either side; FunctionDeclaration is admitted as a Statement; '
                'Annex B forms and escaped identifiers are counted oracle_uncertain, never violations']
 BUDGET_S = {'quick': 75, 'thorough': 900}
-REQUIRED_HITS = ['parse', 'refjs', 'production_reduced']
+REQUIRED_HITS = ['parse', 'refjs', 'production_reduced', 'parser_variant']
 FLOOR = {'quick': 5000, 'thorough': 60000}
 
 ALPHABET = ['a', '1', "'s'", '/', '(', ')', '{', '}', '[', ']', ';', ',', ':', '?', '.', '=', '+', '++',
@@ -175,6 +176,20 @@ class ProductionCoverage(object):
             self.ctx.extra['production_alternatives_total__max'] = total
 
 
+def _parser_variants():
+    return [('Parser(asttypes=<own factory>)', 'own_asttypes'), ('Parser(yacc_tracking=False)', 'no_tracking')]
+
+
+def _variant_parser(which):
+    from calmjs.parse.parsers.es5 import Parser
+    if which == 'own_asttypes':
+        from calmjs.parse.factory import AstTypesFactory
+        from calmjs.parse.unparsers.es5 import pretty_print
+        from calmjs.parse.walkers import ReprWalker
+        return Parser(asttypes=AstTypesFactory(pretty_print, ReprWalker()))
+    return Parser(yacc_tracking=False)
+
+
 def check_text(ctx, text, origin, ntok, floor_tokens):
     s = work.both(text)
     ctx.hit('parse')
@@ -197,6 +212,25 @@ def check_text(ctx, text, origin, ntok, floor_tokens):
     ctx.case(text, nontrivial,
              sample={'origin': origin, 'text': text[:200], 'outcome': outcome}
              if (nontrivial and ctx.rng.random() < 0.01) else None)
+    if not v and s.tree is not None and origin != 'enum' and (len(text) + ntok) % 3 == 0:
+        # "the tree returned" by a parser constructed with its documented arguments: node classes from a factory
+        # of the caller's (fresh classes of the same names), the LALR tables debugged / tracked or not.  Same text,
+        # same tree.
+        from calmjs.parse.exceptions import ECMASyntaxError
+        for label, kw in _parser_variants()[(len(text) // 3) % 2::2]:
+            ctx.hit('parser_variant')
+            try:
+                t2 = _variant_parser(kw).parse(text)
+                c2 = vtree.canon_impl(t2)
+            except ECMASyntaxError as e:
+                c2 = 'rejected: %s' % e
+            except RecursionError:
+                continue
+            if c2 != s.ci:
+                ctx.violation('C03:tree_depends_on_parser_arguments:%s' % label, {'text': text, 'variant': label},
+                              'parse(text) and %s.parse(text) disagree: %s\ninput: %r' % (
+                                  label, vtree.first_diff(s.ci, c2) if not isinstance(c2, str) else c2, text[:300]))
+                break
     if v:
         mech, detail = v
         # minimise under "same mechanism"
